@@ -192,7 +192,11 @@ class KT:
                     sub = self._retain(body, fx, recv, args[1], e, pos)
                     effs.append(Eff("RETAIN", lst if lst is not None else self._alias(recv), None, aux=args[1], ev=e, pos=pos, sub=sub))
                 elif m in ("append", "extend", "extend_from_slice") and len(args) == 2:
-                    effs.append(Eff("APPEND", lst if lst is not None else show(recv)[:40], args[1], aux=recv, ev=e, pos=pos))
+                    me = self._map_emit(args[1], e, pos) if m == "extend" else None
+                    if me is not None:
+                        effs.append(me)      # events.extend(batch.iter().map(|k| Released(*k))): the batch emitted into `events`
+                    else:
+                        effs.append(Eff("APPEND", lst if lst is not None else show(recv)[:40], args[1], aux=recv, ev=e, pos=pos))
                 elif m in ("insert", "clear", "drain", "truncate", "swap_remove", "pop", "dedup", "sort", "reverse", "resize", "split_off", "retain_mut"):
                     effs.append(Eff("OTHERMUT:" + m, lst if lst is not None else self._alias(recv), None, ev=e, pos=pos))
             elif name == MOD + "StepResult::append":
@@ -222,6 +226,25 @@ class KT:
                 lst = list_of(args[0])
                 effs.append(Eff("OTHERMUT:take", lst if lst is not None else self._alias(args[0]), None, ev=e, pos=pos))
         return fx
+
+    def _map_emit(self, src, e, pos):
+        """src = it.map(|k| Event::V(*k)) / it.map(Event::V)  ->  the MAPEMIT effect, else None"""
+        src = mir.strip(src) if isinstance(src, tuple) else src
+        if isinstance(src, tuple) and src and src[0] == "iter":
+            src = src[1]
+        if not (isinstance(src, tuple) and src and src[0] == "call" and method_name(src[1]) == "map" and len(src[2]) == 2):
+            return None
+        it, clos = src[2]
+        base = it[1] if isinstance(it, tuple) and it[0] == "iter" else it
+        lst = list_of(base) if list_of(base) is not None else show(base)[:40]
+        if isinstance(clos, tuple) and clos[0] == "const" and isinstance(clos[1], tuple) and clos[1][0] == "fn" and clos[1][1].rsplit("::", 2)[-2:-1] == ["Event"]:
+            return Eff("MAPEMIT", lst, T("mapelem", it), aux=(clos[1][1].rsplit("::", 1)[-1], it, None), ev=e, pos=pos)
+        if isinstance(clos, tuple) and clos[0] == "closure":
+            cps, cb = mir.walk_closure(self.ctx.body, clos, param_terms=[T("mapelem", it)])
+            rets = [q.outcome[1] for q in cps if q.outcome[0] == "return"]
+            if len(rets) == 1 and is_event_agg(rets[0]) and not any(ev2.kind == "guard" for ev2 in cps[0].events):
+                return Eff("MAPEMIT", lst, rets[0][3][0], aux=(rets[0][2], it, None), ev=e, pos=pos)
+        return None
 
     def resolve_pos(self, t):
         """L[ (L.iter().position(|x| *x == K) as Some).0 ]  is  K  (same for rposition): the element found by an
